@@ -21,6 +21,7 @@ emitting *events* for everything that touches the subject's storage:
     ("compare", op, left, right, node, fi) every evaluated comparison (also those inside comprehensions)
     ("stub", name, args, node, fi)         call of a stub function value
     ("iter", element, iterable, node, fi)  a for loop binds its element term to the items of the iterable term
+    ("handler", node, fi)                  the path enters an ``except`` clause (an exception raised in its try body)
 
 A rule supplies an automaton (``on_event(auto, event, st) -> auto``) whose state is part of the explored state, so
 loops terminate on a fixpoint of (node, environment, facts, automaton state).
@@ -549,6 +550,7 @@ class Exec:
                     cur = nxt
                 results = [(None, s) for s in cur]
             elif node.kind == "handler":
+                st = self.emit(st, ("handler", a, fr.fi))  # the path continues in an except clause
                 results = [(None, st.bind(a.name, f"__exc_{a.lineno}__") if a.name else st)]
             else:
                 raising = isinstance(a, ast.Raise) or any(l == "raise" for _, l in node.succs)
@@ -588,7 +590,12 @@ class Exec:
             e = a.exc.func if isinstance(a.exc, ast.Call) else a.exc
             name = (dotted(e) or "?").rsplit(".", 1)[-1]
             if isinstance(e, ast.Name) and e.id in st.env:
-                name = "?"
+                # an exception object / class chosen earlier and raised here (``missing = KeyError(key) ... raise missing``):
+                # the binding that reaches the raise names the class
+                bn = P(st.env[e.id])
+                bn = bn.func if isinstance(bn, ast.Call) else bn
+                bd = (dotted(bn) or "").rsplit(".", 1)[-1] if isinstance(bn, (ast.Name, ast.Attribute)) else ""
+                name = bd if re.match(r"^[A-Z]\w*(Error|Exception|Exit|Interrupt|Warning|Iteration)$", bd) or bd in _EXC_PARENTS else "?"
             states = [s for _, s in self.ev(a.exc, st, fr)]
         elif isinstance(a, ast.Expr):
             states = [s for _, s in self.ev(a.value, st, fr)]
